@@ -102,6 +102,12 @@ def run(name, checks):
         print('patch does not apply: ' + ra.stdout)
         return 2
     results = {}
+    # the evidence files must describe the unchanged tree: keep them aside while the patch is applied
+    saved = {}
+    for c in checks:
+        ep = os.path.join(ROOT, 'evidence', c + '.json')
+        if os.path.exists(ep):
+            saved[ep] = open(ep).read()
     try:
         for c in checks:
             t0 = time.time()
@@ -113,6 +119,9 @@ def run(name, checks):
             print('%s vs %s: %s (exit %d, %.0fs) %s' % (name, c, 'DETECTED' if results[c]['detected'] else 'missed', r.returncode, time.time() - t0, cls[0][:160] if cls else ''))
     finally:
         sh('git -C /repo checkout -- .')
+        for ep, text in saved.items():
+            with open(ep, 'w') as f:
+                f.write(text)
     meta.setdefault('check_results', {}).update(results)
     meta['check_results_at'] = time.strftime('%Y-%m-%dT%H:%M:%SZ', time.gmtime())
     with open(meta_path, 'w') as f:
